@@ -90,4 +90,7 @@ if __name__ == '__main__':
     if sys.argv[1:] == ['warm']:
         warm()
     elif sys.argv[1:] == ['validate']:
-        sys.exit(1 if validate() else 0)
+        bad = validate()
+        import unittest_replay
+        r = unittest_replay.main()
+        sys.exit(1 if (bad or r['fail']) else 0)
